@@ -50,6 +50,7 @@ namespace {
 #undef VP_CATOF
 
    struct Category_check {
+      void generative() { }
       int nodes = 0;
       template<class I> void node(const I& n) {
          if constexpr (std::is_base_of_v<ipr::Node, I>) {
